@@ -10,7 +10,7 @@
    structure is decided per run by the metamorphic oracle of the check, see DESIGN.md. *)
 From Coq Require Import ZArith QArith Qabs Reals List Bool Arith.
 From Inkfem Require Import Num.NumOps Gen.GenStiffness Gen.GenLoads Gen.GenRecover Spec.Stiffness
-  Model.Types Model.Slice Model.Loads Spec.Resultant Proofs.StiffnessQ Proofs.PlacementProofs Proofs.UnitsBar.
+  Model.Types Model.Slice Model.Loads Spec.Resultant Model.Dof Model.Assemble Proofs.StiffnessQ Proofs.PlacementProofs Proofs.SystemProofs Proofs.UnitsBar Proofs.UnitsStructure Proofs.MovedStructure.
 Import ListNotations.
 
 Theorem C07_stiffness_rotation_covariant_R : forall (L c s t1 t2 E A I : R), (L * (t2 - t1) <> 0 ->
@@ -131,3 +131,13 @@ Definition c07_bar : bar Q := {| b_n1 := 0; b_n2 := 1; b_l1 := rigid; b_l2 := ri
 Example C07_bar_example : own_axes_only c07_bar = true /\ ((3 # 5) * (3 # 5) + (4 # 5) * (4 # 5) == 1)%Q /\
   length (preprocess_bar false (turned_bar (3 # 5) (4 # 5) c07_bar)) = 14%nat.
 Proof. split; [reflexivity|]. split; [reflexivity|]. vm_compute. reflexivity. Qed.
+
+(* the whole structure of the model moved elsewhere (bars sliced with or without own weight, any numbering, any supports):
+   the matrix handed to the solver is the same, the load vector is the same up to ==, and the same displacements solve it *)
+Theorem C07_a_structure_moved_elsewhere_gets_the_same_system : forall (dx dy : Q) (w : bool) (n : nat) (bs : list (bar Q))
+  (ds : list (list dof3)) (sup : list nat) (u : list Q),
+  (forall i j, k_final (all_contribs (prepared_all w (moved_all dx dy bs) ds)) sup i j = k_final (all_contribs (prepared_all w bs ds)) sup i j) /\
+  (forall i, (f_final (all_fterms (prepared_all w (moved_all dx dy bs) ds)) sup i == f_final (all_fterms (prepared_all w bs ds)) sup i)%Q) /\
+  (solves n (prepared_all w bs ds) sup u -> solves n (prepared_all w (moved_all dx dy bs) ds) sup u).
+Proof. exact moved_structure_same_system. Qed.
+Print Assumptions C07_a_structure_moved_elsewhere_gets_the_same_system.
